@@ -66,7 +66,8 @@ CHECKS = {
              "refs/stacks/<b> (Inv6, all histories); the log is append-only except for log --clear; gc that keeps the "
              "closure of the refs keeps every logged patch."),
     "C07": dict(category="proof", design_ref="DESIGN.md section 4/C07", note=HIST_NOTE, technique=HIST_TECH,
-        text="Theorems: list results of reorder/push/pop/delete are the documented ones; the four tree shortcuts, the "
+        text="Whole-command round trip C07_pop_push_roundtrip: `pop -n k; push -n k` gives back the same commits, lists, branch and work tree (macro pop_push_roundtrip + oracle clause on the real repository). "
+             "Theorems: list results of reorder/push/pop/delete are the documented ones; the four tree shortcuts, the "
              "temp-index path (git apply) and the work-tree merge all return the cell-wise three-way merge; "
              "non-overlapping changes merge cleanly and commute; already-present changes become empty; the temp-index "
              "cache stays coherent (fix F7); pop+push reuses the same commits; the --merged heuristic is proved to lose "
@@ -137,7 +138,7 @@ CHECKS = {
              "other publication path (log_external_mods on a branch moved by plain git) is raced separately: one "
              "process held between reading and publishing the state ref while another completes (direct oracle)."),
     "C12": dict(category="proof", design_ref="DESIGN.md section 4/C12", note=HIST_NOTE, technique=HIST_TECH,
-        text="Whole-command round trip C12_commit_uncommit_roundtrip: `stg commit -n k` then `stg uncommit <the same k "
+        text="Whole-command round trips C12_commit_uncommit_roundtrip and C12_uncommit_commit_roundtrip: `stg commit -n k` then `stg uncommit <the same k "
              "names>` gives back the same commits under the same names in the same order, the same unapplied and hidden "
              "patches, branch / index / work tree untouched (generator macro commit_roundtrip and a direct oracle clause "
              "read the same off the real repository). "
